@@ -8,6 +8,7 @@ Effects are inferred from bodies, not names:
                  location rooted in their own `self` without clearing it first.
 Obligation: at every call site of a requires-zero function the location is Zero: cleared on every incoming path by a
 dominating clearer call on the same location, or a fresh object (`new()` whose aggregate is all-zero) not yet accumulated."""
+import re
 from ..sym import Sym, strip, show, canon, fpath, const_value, walk
 from ..mir import callee_of, pl
 
@@ -283,3 +284,117 @@ def length_follows_masks(ctx, prog):
                     why = "the length of %s is set on a path where its masks are neither cleared nor rebuilt" % L
             ctx.ob(R, "%s: length store (%s) happens only where the masks are redefined" % (g.short, callee_of(t).split("::")[-1]), ok, why, g.loc(t["sp"]))
     ctx.floor(R, n, 2, "length stores of position arrays outside the primitive setters")
+
+
+def equiv_exact(ctx, prog):
+    """`is_equiv_internal`: a position array can only be reported equivalent to a string of exactly its own length,
+    every position of which has its bit set in the mask of that position's symbol"""
+    from ..sym import path_conds, bool_atom
+    from .fold import iter_source
+    R = "SA-GUARD"
+    f = prog.fn("BlockHashPositionArrayImplInternal::is_equiv_internal")
+    ctx.visit(f)
+    sy = Sym(f)
+    want_len = ("internals::compare::position_array::BlockHashPositionArrayData::len(param:self)", "core::slice::<impl [T]>::len(param:other)")
+    results = []
+    for i, j, s in f.stmts():
+        if s["s"] == "assign" and s["lhs"]["l"] == 0 and not s["lhs"]["p"]:
+            results.append((i, strip(sy.rvalue(s["rv"]))))
+    for i, t in f.calls():
+        if t["dest"]["l"] == 0 and not t["dest"]["p"]:
+            results.append((i, strip(sy.call(t, i))))
+    bad = []
+    n_true = 0
+    all_call = None
+    for blk, e in results:
+        if e[0] == "const" and const_value(e) == 0:
+            continue
+        n_true += 1
+        ok = False
+        for c in path_conds(f, sy, blk):
+            a = bool_atom(c)
+            if a and a[0] == "Eq":
+                x, y = (re.sub(r"::<[^()]*>\(", "(", canon(strip(z))) for z in (a[1], a[2]))
+                if (x, y) == want_len or (y, x) == want_len:
+                    ok = True
+        if not ok:
+            bad.append("result %s at bb%d is not under `self.len() == other.len()`" % (show(e)[:80], blk))
+        if e[0] == "call" and e[1].endswith("Iterator::all"):
+            all_call = e
+        else:
+            bad.append("a result other than false / all(..): %s" % show(e)[:80])
+    ctx.ob(R, "is_equiv_internal: every result other than false is computed under `self.len() == other.len()` (exact length equality)", not bad and n_true >= 1,
+           "; ".join(bad) or "%d non-false result(s)" % n_true, f.loc())
+    ok = False
+    why = "no all(..)"
+    if all_call is not None:
+        src = strip(all_call[2][0])
+        src = sy.origin(src) if src[0] in ("ref", "local") else src
+        c = canon(strip(src))
+        ok = c == "core::iter::Iterator::enumerate(core::slice::<impl [T]>::iter(param:other))"
+        why = "iterates %s" % c[:140]
+        cl = strip(all_call[2][1])
+        if ok and cl[0] == "agg" and cl[1].startswith("Closure:"):
+            g = prog.get(cl[1][len("Closure:"):])
+            if g is None:
+                ok = False
+                why += "; closure body not found"
+            else:
+                ctx.visit(g)
+                gs = Sym(g)
+                ce = canon(strip(gs.local(0)))
+                # Ne(BitAnd(<captured representation>[ch as usize], Shl(1, i)), 0) with i = item.0, ch = *item.1
+                # closure parameters: 1 = captures (the masks), 2 = the (position, &symbol) item
+                ok = re.match(r"^Ne\(BitAnd\(param:\w*1\.0\[\(?param:\w*2\.1( as usize\))?\],Shl\(1,param:\w*2\.0\)\),0\)$", ce) is not None
+                why += "; per position: %s" % ce[:160]
+                caps = [re.sub(r"::<[^()]*>\(", "(", canon(strip(x))) for x in cl[2]]
+                if caps != ["internals::compare::position_array::BlockHashPositionArrayData::representation(param:self)"]:
+                    ok = False
+                    why += "; the masks read are %s, not self.representation()" % caps
+        else:
+            ok = False
+    ctx.ob(R, "is_equiv_internal: the non-false result is `all` over every (position, symbol) of `other` of `mask[symbol] & (1 << position) != 0`", ok, why, f.loc())
+
+
+def accumulate_exact(ctx, prog):
+    """`init_from_partial`: for every (position i, symbol ch) of the whole input, mask[ch] |= 1 << i, nothing else is
+    stored into the masks, and the length is set to the input's length"""
+    from .fold import iter_source
+    R = "SA-FORMULA"
+    f = prog.fn("BlockHashPositionArrayImplMutInternal::init_from_partial")
+    ctx.visit(f)
+    sy = Sym(f)
+    item = None
+    for i, t in f.calls():
+        if callee_of(t).endswith("Iterator>::next") or callee_of(t).endswith("Iterator::next"):
+            it = strip(sy.operand(t["args"][0]))
+            src = canon(strip(sy.origin(it)))
+            item = (i, t, src)
+    ok = item is not None and re.sub(r"^<I as core::iter::IntoIterator>::into_iter\((.*)\)$", r"\1", item[2]) == "core::iter::Iterator::enumerate(core::slice::<impl [T]>::iter(param:blockhash))"
+    ctx.ob(R, "init_from_partial walks every (position, symbol) of the whole input", ok, "iterator source %s" % (item[2][:140] if item else None), f.loc())
+    stores = []
+    for i, j, s in f.stmts():
+        if s["s"] == "assign" and s["lhs"]["p"] and s["lhs"]["l"] != 0:
+            root = strip(sy.origin(("local", s["lhs"]["l"], f.locals[s["lhs"]["l"]]["name"])))
+            stores.append((canon(root), canon(strip(sy.place(s["lhs"]))), canon(strip(sy.rvalue(s["rv"])))))
+    nxt = r"\(<core::iter::Enumerate<I> as core::iter::Iterator>::next\(local:\w+\) as Some\)\.0"
+    good = []
+    bad = []
+    for root, p, v in stores:
+        v = re.sub(r"^\((\w+)WithOverflow\((.*)\)\)\.0$", r"\1(\2)", v)
+        m = re.match(r"^(.*)\[\(\*?%s\.1 as usize\)\]$" % nxt, p) or re.match(r"^(.*)\[\(?\*?\(?%s\.1\)?( as usize)?\)?\]$" % nxt, p)
+        if m and re.match(r"^BitOr\(%s,Shl\(1,%s\.0\)\)$" % (re.escape(p), nxt), v):
+            good.append(p)
+        else:
+            bad.append("%s <- %s" % (p[:100], v[:120]))
+    ok = len(good) == 1 and not bad and all(re.match(r"^internals::compare::position_array::BlockHashPositionArrayDataMut::representation_mut(::<Self>)?\(param:self\)\[", p) for p in good)
+    ctx.ob(R, "init_from_partial: the only store is mask[symbol] |= 1 << position on representation_mut(self)", ok,
+           "; ".join(bad) or "%s" % good, f.loc())
+    ln = [(i, t) for i, t in f.calls() if callee_of(t).endswith("set_len_internal")]
+    ok = len(ln) == 1
+    why = "%d set_len_internal calls" % len(ln)
+    if ok:
+        a = canon(strip(sy.operand(ln[0][1]["args"][1])))
+        ok = a == "core::slice::<impl [T]>::len(param:blockhash)"
+        why = "set_len_internal(%s)" % a
+    ctx.ob(R, "init_from_partial: the length becomes the input's length", ok, why, f.loc())
